@@ -268,6 +268,46 @@ theorem routing_exact (sys : List (Species P)) (hnd : (sys.map (·.name)).Nodup)
         ignoreH := ignoreFor h s.1.name }) :=
   managerAlign_ok sys hnd r d h hr hd hh
 
+/-- `parse_restrictions=False` (restraints already in the parsed format, used as given): whatever
+    the order of the given dictionary and whichever subset of the complete species it lists —
+    `l` is that dictionary, each key paired with the species it names — exactly the listed species
+    are aligned, in the dictionary's order, each with ITS OWN restraint value, and with the
+    deformation types and the hydrogen flag stored under ITS OWN name in the other two dictionaries
+    (defaults where nothing is stored); never with the values at the same position. -/
+theorem routing_exact_preparsed (sys : List (Species P)) (hnd : (sys.map (·.name)).Nodup)
+    (l : List ((Species P × Mol P) × Option (List Pair))) (hl : ∀ x ∈ l, x.1 ∈ complete sys)
+    (d : Option (Dict DefArg)) (h : Option (Dict IgnArg))
+    (hd : DefDictOk sys d) (hh : IgnDictOk sys h) :
+    managerAlignPreparsed sys (l.map fun x => (x.1.1.name, x.2)) d h =
+      runAligns (l.map fun x =>
+        { name := x.1.1.name, start := x.1.1.start, end_ := x.1.2, restr := x.2,
+          deform := deformFor d x.1.1.name, ignoreH := ignoreFor h x.1.1.name }) :=
+  managerAlignPreparsed_ok sys hnd l hl d h hd hh
+
+/-- every pre-parsed dictionary whose keys are complete species is of the form
+    `routing_exact_preparsed` speaks about -/
+theorem routing_preparsed_form (sys : List (Species P)) (r : Dict (Option (List Pair)))
+    (hk : ∀ kv ∈ r, kv.1 ∈ completeNames sys) :
+    ∃ l : List ((Species P × Mol P) × Option (List Pair)),
+      (∀ x ∈ l, x.1 ∈ complete sys) ∧ r = l.map fun x => (x.1.1.name, x.2) :=
+  preparsed_form sys r hk
+
+/-- parsing with `Manager.parse_restrictions` first and passing the result with
+    `parse_restrictions=False` does what the default call does -/
+theorem routing_preparsed_roundtrip (sys : List (Species P)) (r : Option (Dict RestrArg))
+    (d : Option (Dict DefArg)) (h : Option (Dict IgnArg)) (x : Dict (Option (List Pair)))
+    (hp : parseRestrictions sys r = .ok x) :
+    managerAlign sys r d h = managerAlignPreparsed sys x d h :=
+  managerAlign_eq_preparsed sys r d h x hp
+
+/-- with `parse_restrictions=False` malformed deformation values, non-bool hydrogen flags and
+    unknown names in those two dictionaries are still refused before the first alignment call -/
+theorem routing_preparsed_rejects_first (sys : List (Species P)) (r : Dict (Option (List Pair)))
+    (d : Option (Dict DefArg)) (h : Option (Dict IgnArg))
+    (hbad : ¬ (DefDictOk sys d ∧ IgnDictOk sys h)) :
+    ∃ err, managerAlignPreparsed sys r d h = ⟨[], some err⟩ :=
+  managerAlignPreparsed_rejects sys r d h hbad
+
 /-- what `restrFor` / `deformFor` / `ignoreFor` are: the value stored under exactly that name -/
 theorem routing_values (r : Dict RestrArg) (d : Dict DefArg) (h : Dict IgnArg) (name : PStr) :
     (∀ entries, r.lookup name = some (.list entries) →
@@ -503,6 +543,28 @@ example : (exSys.map (·.name)).Nodup ∧ RestrDictOk exSys (some exR) ∧ DefDi
 example : managerAlign exSys (some exR) (some exD) (some exH) =
     ⟨[(['A'], .call false ⟨[0, 1, 2, 3], [0, 1], [(3, 1), (1, 0)], [0, 1, 2], 10000⟩),
       (['B'], .call true ⟨[0, 1, 2, 3, 4], [0, 1, 2], [(1, 0), (4, 1)], [0, 1], 15000⟩)], none⟩ := rfl
+
+/-- `routing_exact_preparsed`: the same three options with the restraint dictionary given
+    pre-parsed in REVERSED order (`B` first), and with only `B` listed: `B` is still swapped, filtered
+    and limited to `[0, 1]`, `A` still keeps its hydrogens and the default `[0, 1, 2]` -/
+example : managerAlignPreparsed exSys
+    [(['B'], some [(0, 1), (1, 4)]), (['A'], some [(3, 1), (1, 0)])] (some exD) (some exH) =
+    ⟨[(['B'], .call true ⟨[0, 1, 2, 3, 4], [0, 1, 2], [(1, 0), (4, 1)], [0, 1], 15000⟩),
+      (['A'], .call false ⟨[0, 1, 2, 3], [0, 1], [(3, 1), (1, 0)], [0, 1, 2], 10000⟩)], none⟩ := rfl
+example : managerAlignPreparsed exSys [(['B'], some [(0, 1), (1, 4)])] (some exD) (some exH) =
+    ⟨[(['B'], .call true ⟨[0, 1, 2, 3, 4], [0, 1, 2], [(1, 0), (4, 1)], [0, 1], 15000⟩)], none⟩ := rfl
+/-- the hypotheses of `routing_exact_preparsed` for the reversed dictionary -/
+example : ∀ x ∈ [(((⟨['B'], spB_start, some spB_end⟩ : Species Nat), spB_end), some [((0 : Int), (1 : Int)), (1, 4)]),
+                 (((⟨['A'], spA_start, some spA_end⟩ : Species Nat), spA_end), some [(3, 1), (1, 0)])],
+    x.1 ∈ complete exSys := by
+  intro x hx
+  simp only [List.mem_cons, List.not_mem_nil, or_false] at hx
+  rcases hx with rfl | rfl <;> simp [complete, exSys]
+/-- observation (outside the property's quantifier: the caller switched validation off): a key that
+    names no complete species in a hand-made pre-parsed dictionary raises `KeyError` only when the
+    loop reaches it, after the alignment of the keys before it -/
+example : managerAlignPreparsed exSys [(['A'], none), (['C'], none)] none none =
+    ⟨[(['A'], .call false ⟨[0, 2, 3], [0, 1], [], [0, 1, 2], 10000⟩)], some .keyError⟩ := rfl
 
 /-- D10 witness on the model of the REPAIRED code: `deformation_types={'B': (7,)}` is `Malformed` and is
     rejected with no alignment call (the unrepaired code aligned `A` first) -/
